@@ -39,7 +39,7 @@ WITNESSES = ['property_failed_mid_step', 'property_failed_at_step_started', 'nev
 STUBS = ['failing property chart: w -> final on every meta-event name, guard FAIL() = fresh symbolic Boolean per delivery',
          'recording property chart: internal transition per meta-event name, action REC(event, time)']
 ASSUMPTIONS = ['well-formed monitored charts over basic/compound/orthogonal/final states', 'events a / none',
-               'the undocumented extra meta-event "delayed event sent" does not occur (no delays used here)']
+               'the undocumented extra meta-event "delayed event sent" is ignored by the recording listener']
 OUTSIDE = ['charts above the bounds of the completed level', 'property statecharts other than the two families',
            'deprecated: binding an Interpreter instead of a Statechart']
 
@@ -84,6 +84,12 @@ def mview(e):
     """comparable view of a meta-event"""
     d = {}
     for k, v in e.data.items():
+        try:        # the documented way to read a meta-event attribute (what a property statechart's guard does)
+            va = getattr(e, k)
+        except AttributeError:
+            va = '<<AttributeError>>'
+        if va is not v:
+            d[k + ' (read as attribute)'] = repr(va)
         if k == 'event':
             v = None if v is None else [type(v).__name__, v.name, dict(v.data)]
         d[k] = v
@@ -128,8 +134,9 @@ def harness(g, chart, level, canary=False):
 
     def hook(kind, ident):
         if kind == 'action':
-            if ident == 0:    # a notify followed by a send in one fragment: their order must be kept
-                return "A(0)\nnotify('note', k=0)\nsend('b', k=0, res=LOCK())\nnotify('note', k=9)"
+            if ident == 0:    # a delayed send, a notify, a plain send, a notify in one fragment: their order must be kept
+                return ("A(0)\nsend('c', k=1, delay=3)\nnotify('note', k=0)\nsend('b', k=0, res=LOCK())\n"
+                        "notify('note', k=9, z=None)")
             return "A(%d)\nnotify('note', k=%d)" % (ident, ident)
         return None
     import threading as _thr
@@ -160,6 +167,8 @@ def harness(g, chart, level, canary=False):
     started_with = []
 
     def REC(event, time):
+        for k in event.data:
+            getattr(event, k)       # attribute-style access, None-valued attributes included
         recd.append((event.name, time))
 
     def FAIL(event):
